@@ -28,9 +28,6 @@ variable {α : Type}
 
 def new (n : Nat) : Dendrogram α := ⟨#[], n⟩
 
-/-- `reset(observations)`: from any prior value. -/
-def reset (_d : Dendrogram α) (n : Nat) : Dendrogram α := ⟨#[], n⟩
-
 /-- `push`: `assert!(self.len() < self.observations().saturating_sub(1))`. -/
 def push (d : Dendrogram α) (s : Step α) : R (Dendrogram α) := do
   guard' (decide (d.steps.size < d.obs - 1))
